@@ -7,11 +7,12 @@ FUNCTIONS = [_B + "BIPBBMD.confirmation[%s]" % k for k in ("OriginalBroadcastNPD
                                                           "DistributeBroadcastToNetwork", "RegisterForeignDevice")] + [
     _B + "BIPBBMD.register_foreign_device", _B + "BIPBBMD.process_task", _B + "BIPBBMD.delete_foreign_device_table_entry",
     _B + "BIPForeign.confirmation[Result]", _B + "BIPForeign.confirmation[ForwardedNPDU]", _B + "BIPForeign.process_task",
-    _B + "BIPForeign.indication[local broadcast]", _B + "BIPForeign._registration_expired", _B + "BIPForeign.unregister"]
+    _B + "BIPForeign.indication[local broadcast]", _B + "BIPForeign._registration_expired", _B + "BIPForeign.unregister", _B + "BIPForeign.register"]
 LEMMAS = []
 MIN_OBLIGATIONS = 30
-BOUNDED = None
+BOUNDED = "bounded.c13"
 ASSUMPTIONS = [
+    "whole-system complement: real B/IP nodes on bacpypes.vlan IP networks (bounded stage): 1..5 subnets, BBMDs with full / partial tables, ordinary nodes, foreign devices with TTL 1..300 s, broadcasts from every node across registration, renewal, expiry, unregistration and table-entry deletion",
     "bounded in structure: broadcast distribution tables [], [me, P1], [P1, me, P2], [P1, P2]; 0..3 registered foreign devices with concrete, distinct addresses; time-to-live, remaining time and payload are symbolic",
     "downstream (Client.request), upstream (Server.response) and the service access point are ghost-traced externals; frames are read with their fields at the moment of the call (the code re-addresses and re-sends one PDU object)",
     "timers are the trusted summaries of _Task.install_task / suspend_task (C14); the BBMD's process_task is one tick of its 1 s recurring task",
